@@ -15,7 +15,7 @@ func TestC07(t *testing.T) {
 	Ev.Rule = "generated build pairs (bias to new files of 0..16 bytes, tiny/empty old files, renamed+edited files) x optimizer knobs (partitions 0..16, suffix-sort concurrency -1..4, ForceMapAll, size limits, output compression) x schedules of the bsdiff sort/worker/dispatcher/collector goroutines; apply fresh and in place; non-trivial = at least one file was mapped to a bsdiff series; distinct by (pair, knobs, schedule log)"
 	Ev.Component("rediff.NewContext/Optimize, bsdiff.DiffContext.Do, PSA, patcher bsdiff series, fresh + overlay bowls", "real")
 	Ev.Component("patch source, output writer, goroutine schedule / select choice / map order", "simulated")
-	Ev.Assume("old/new build pools are real fspools: lrufile and the optimizer read them through *os.File (file-like readers)")
+	Ev.Assume("the optimizer reads old and new builds through real fspools; the patcher that applies the result reads the old build through a pool that may return short reads")
 	Prop(t, "C07", func(rt *rapid.T) {
 		o := GenOpts{Links: true, EmptyDirs: true, LowEntropy: true, MaxMid: 150 * KiB, TinyBias: rapid.Bool().Draw(rt, "tinybias")}
 		pair := GenPair(rt, o)
